@@ -57,6 +57,33 @@ def bookmark_regex(t0, t1, t2, use_before, pat=0, **kw):
     return (flat(p) != before or pos != exp), f"bookmark at {pos}, expected {exp}; text {flat(p)!r} (was {before!r}): {p.serialize()}"
 
 
+def bookmark_regex_pos(t0, t1, t2, use_before, pat=0, pos=0, **kw):
+    PAT = PATTERNS[pat]
+    p = mk(t0, t1, t2)
+    before = flat(p)
+    xml = p.serialize()
+    spots, acc = [], 0
+    for r in runs(t0, t1, t2):
+        for m in re.finditer(PAT, r):
+            spots.append(acc + (m.start() if use_before else m.end()))
+        acc += len(r)
+    exp = (spots[-1] if spots else None) if pos < 0 else (spots[pos] if pos < len(spots) else None)
+    try:
+        if use_before:
+            p.set_bookmark("bm", before=PAT, position=pos)
+        else:
+            p.set_bookmark("bm", after=PAT, position=pos)
+    except ValueError:
+        return (exp is not None or p.serialize() != xml), f"ValueError although match {pos} exists (expected offset {exp}) / tree modified"
+    except IndexError as e:
+        return True, f"IndexError {e} (matches at {spots}, position {pos})"
+    if exp is None:
+        return True, f"no match number {pos} but no ValueError: {p.serialize()}"
+    head = p.serialize().split("<text:bookmark")[0]
+    got = len(re.sub(r"<[^>]*>", "", head))
+    return (flat(p) != before or got != exp), f"bookmark at {got}, expected {exp} (match {pos} of {spots}); text {flat(p)!r} (was {before!r}): {p.serialize()}"
+
+
 def strip_spans(t0, t1, t2, **kw):
     p = mk(t0, t1, t2)
     before = flat(p)
@@ -68,13 +95,17 @@ def strip_spans(t0, t1, t2, **kw):
     return (not ok), f"{before!r}: remove_spans -> {r1.serialize()} ; remove_links -> {r2.serialize()}"
 
 
-def delete_keep_tail(t0, t1, t2, keep, inner, **kw):
-    p = mk(t0, t1, t2)
+def delete_keep_tail(t0, t1, tl, keep, inner, **kw):
+    if inner:
+        xml = '<text:p>%s<text:a xlink:href="u">%s<text:span>a</text:span>%s</text:a>ab</text:p>' % (t0, t1, tl)
+    else:
+        xml = '<text:p>%s<text:a xlink:href="u">%s<text:span>a</text:span>b</text:a>%s</text:p>' % (t0, t1, tl)
+    p = Element.from_tag(xml)
     a = p.get_element("text:a")
     if inner:
         a.delete(a.get_element("text:span"), keep_tail=keep)
-        exp = t0 + t1 + ("b" if keep else "") + "ab"
+        exp = t0 + t1 + (tl if keep else "") + "ab"
     else:
         p.delete(a, keep_tail=keep)
-        exp = t0 + ("ab" if keep else "")
-    return flat(p) != exp, f"after delete(keep_tail={keep}): {flat(p)!r}, expected {exp!r}"
+        exp = t0 + (tl if keep else "")
+    return flat(p) != exp, f"after delete(keep_tail={keep}) in {xml}: {flat(p)!r}, expected {exp!r}"
